@@ -6,6 +6,10 @@ ids = [p['id'] for p in props]
 
 # id -> (level, technique, text, note)
 CLAIMED = {
+ "C06": ("exploration", "metamorphic monitor: ternary-logic partitioning of the engine against itself, with predicate shrinking",
+         "Q is compared with the union of Q AND p, Q AND NOT p, Q AND (p) IS NULL in plain, DISTINCT, aggregate and GROUP BY forms, and COUNT(*) WHERE p with the number of TRUE values of SELECT (p); indexes make pushdown and index-scan paths participate.",
+         "The engine is its own oracle; cases in which a query errors are skipped and counted."),
+
  "C03": ("exploration", "twin monitor: same statement on the columnar path and with the verif hook's no_columnar switch, gated by the columnar probe",
          "Every generated single-table aggregate statement is executed twice on the same build (columnar gate open / forced off) over tables sized around SIMD boundaries with all NULL densities; results must agree and the three explicit clauses of the statement are asserted on the columnar path.",
          "Only statements on which the columnar probe fired count; the row path is the oracle (C07 cross-checks it against a model)."),
